@@ -164,6 +164,15 @@ Theorem C09_constructor_rejects_missing_state :
 Proof. exact (@mk_sa_rejects_missing_state). Qed.
 Print Assumptions C09_constructor_rejects_missing_state.
 
+(* every ddp accepted by either constructor satisfies the hypothesis ddp_ok of the operator theorems *)
+Theorem C09_constructed_ddp_ok :
+  (forall n sidx aidx (R : list (ext Q)) Qm beta d,
+     mk_sa n sidx aidx R Qm beta = COk d -> ddp_ok d /\ 0 <= d_beta d <= 1) /\
+  (forall n m (R : list (list (ext Q))) Qm beta d,
+     mk_prod n m R Qm beta = COk d -> ddp_ok d /\ 0 <= d_beta d <= 1).
+Proof. exact (conj mk_sa_ok mk_prod_ok). Qed.
+Print Assumptions C09_constructed_ddp_ok.
+
 (* the feasibility test itself (both formulations go through finish_ctor) *)
 Theorem C09_constructor_rejects_partial :
   forall n sidx aidx indptr (R : list (ext Q)) Qm beta prod,
